@@ -250,7 +250,27 @@ def render_routes(x) -> list:
             ("render()['html']", lambda: x.render()["html"]),
             ("str()", lambda: str(x)),
             ("repr()", lambda: repr(x)),
-            ("_repr_html_()", lambda: x._repr_html_())]
+            ("_repr_html_()", lambda: x._repr_html_()),
+            ("str() in json dependency mode", lambda: _str_json_mode(x))]
+
+
+def _str_json_mode(x) -> str:
+    """str(x) with htmltools.html_dependency_render_mode = 'json': the markup, followed by the
+    serialised form of each dependency (one <script type=application/json data-html-dependency>
+    element each).  For comparison with the other routes that tail is cut off again -- it is the
+    subject of C13 -- so what is returned must be the same markup as every other route gives."""
+    import htmltools as _h
+    old = _h.html_dependency_render_mode
+    try:
+        _h.html_dependency_render_mode = "json"
+        s = str(x)
+        deps = x.render()["dependencies"]
+    finally:
+        _h.html_dependency_render_mode = old
+    tail = "\n".join(d.serialize_to_script_json().get_html_string() for d in deps)
+    if tail and s.endswith(tail):
+        s = s[:len(s) - len(tail)]
+    return s
 
 
 def routes_disagree(x) -> str | None:
@@ -381,12 +401,14 @@ def rand_tree(rng: random.Random, depth: int, *, leaves: str = "THRM", names: st
     t = ("G", name, ws, rand_attrs(rng), kids)
     if 0.012 <= big < 0.02:
         # DEEP: the tree sits at the bottom of a chain of single-child tags (depth-dependent paths)
-        for _ in range(rng.choice([6, 10, 17, 33, 60])):
-            n2, w2 = rand_name(rng, "bi" if "b" in names or "i" in names else names)
-            if valid_nesting and not parent_ws:
-                w2 = False
-            if valid_nesting and not w2:
-                break                      # an inline wrapper around a block subtree would be an invalid nesting
+        for _ in range(rng.choice([6, 10, 15, 17, 33, 60])):
+            if valid_nesting:
+                # only whitespace-enabled wrappers keep the nesting valid (and only under such a parent)
+                if not parent_ws:
+                    break
+                n2, w2 = rng.choice(BLOCK_NAMES), True
+            else:
+                n2, w2 = rand_name(rng, "bi" if "b" in names or "i" in names else names)
             t = ("G", n2, w2, [], [t] if rng.random() < 0.8 else [("T", "x"), t])
     return t
 
